@@ -137,7 +137,7 @@ fn step_fsm<O: fsm::Outboard + fsm::OutboardMut>(
     block_on(fsm::decode_ranges(&mut rd, ranges.clone(), target, fo))
 }
 
-/// history: args [kind, seed, size, bs, sink, driver, nops, (nq, q.., cutkind, cutparam)*]
+/// history: args [kind, seed, size, bs, sink, driver, prefill, nops, (nq, q.., cutkind, cutparam)*]
 ///  cutkind 0: complete; 1: stream cut after cutparam bytes; 2: cutparam-th target write fails; 3: cutparam-th save fails
 ///  -> per step [rc, payload, target_dg, ob_dg, nranges, (start,end)*]
 pub fn history(a: &[u128]) -> Vec<u128> {
@@ -145,12 +145,13 @@ pub fn history(a: &[u128]) -> Vec<u128> {
     let bs = a[3] as u8;
     let sink = a[4];
     let driver = a[5];
-    let nops = a[6] as usize;
+    let prefill = a[6] as u8;
+    let nops = a[7] as usize;
     let t = BaoTree::new(data.len() as u64, BlockSize::from_chunk_log(bs));
     let root = refenc::root(&data);
     let mut ob = Ob::new(sink, root, t, vec![0u8; t.outboard_size() as usize]);
-    let mut target = FailTarget { data: vec![0u8; data.len()], fail_at: None, n: 0 };
-    let mut i = 7;
+    let mut target = FailTarget { data: vec![prefill; data.len()], fail_at: None, n: 0 };
+    let mut i = 8;
     let mut o = Vec::new();
     for _ in 0..nops {
         let (q, j) = crate::proto::take_list(a, i);
